@@ -55,7 +55,7 @@ NoException == ~R.raised \/ Fail("NoException")
 \* every IOPATH lands on [dataset, line, input polarity, output polarity]; every other entry is zero
 IoPathsLand == R.raised \/ R.gotio = ExpectIo \/ Fail("IoPathsLand")
 InterconnectsLand == R.raised \/ R.gotic = ExpectIc \/ Fail("InterconnectsLand")
-\* machinery: the generator only emits entries that have a line to land on
-EntriesHaveLines == (\A k \in 1..Len(R.ents) : IF R.ents[k].io THEN IoLine(R.ents[k]) >= 0 ELSE IcLine(R.ents[k]) >= 0)
+\* machinery: the generator marks the entries that name a pin without a line (noline); model and generator must agree on them
+EntriesHaveLines == (\A k \in 1..Len(R.ents) : LET e == R.ents[k] IN e.noline <=> ((IF e.io THEN IoLine(e) ELSE IcLine(e)) < 0))
                     \/ (PrintT(<<"FAIL", "MACHINERY", tid, 0, "EntriesHaveLines">>) /\ FALSE)
 =============================================================================
